@@ -48,7 +48,7 @@ def run_operator_case(case, prop, configs, weakly, want, nq=8, cinf_bounds=(5, 5
     if fam is None and kw:
         fam = rng.choices(['rand', 'chain', 'indep', 'conjcons', 'multiex', 'expchain', 'disjant'], [8, 1, 1, 2.5, 1, 0.8, 2])[0]
     sig, conds, fam = gen.gen_base(rng, want=want, family=fam, **(kw if fam == 'rand' else {}))
-    qs = gen.gen_queries(rng, sig, conds, nq)
+    qs = gen.gen_queries(rng, sig, conds, nq, p_tie=0.75 if fam in ('conjcons', 'multiex') else 0.2)
     if fam == 'd4':
         qs[0] = gen.D4_QUERY
     via = 'parser' if rng.random() < 0.5 else 'api'
